@@ -303,6 +303,22 @@ func checkAny(c *h.Ctx, docText string, doc any, listings [][]wnode, spec anySpe
 		if len(o.Items) > 0 && lax {
 			lastItem := o.Items[len(o.Items)-1]
 			if sc, ok := scalarLit(lastItem); ok {
+				// the traversal as an operand: every node it selects takes part
+				// in the comparison, whichever entry point asks - the one that
+				// wants a single item included
+				if pw := cachedPath(`$ ? (@.w` + spec.text + ` == ` + sc + `)`); pw != nil {
+					wrapped := map[string]any{"w": h.Decode(docText, c15UseNum)}
+					for _, entry := range []string{"first", "query", "exists"} {
+						ow := h.Call(entry, pw, wrapped, h.Opts{})
+						c.Eval(1)
+						found := ow.Class == h.OK && (entry == "first" && ow.Val != nil || entry == "query" && len(ow.Items) == 1 || entry == "exists" && ow.Bool)
+						if ow.Class != h.Panic && !found {
+							c.Violate("exists", h.F("mode", modeName(lax), "form", "operand", "entry", entry), fmt.Sprintf("%s selects %s on %s (its last node), but %s($ ? (@.w%s == %s)) on {\"w\": doc} = %s", ptxt, sc, docText, entry, spec.text, sc, ow.Summary()), cs)
+						} else {
+							c.Held("exists")
+						}
+					}
+				}
 				ftxt := ptxt + " ? (@ == " + sc + ")"
 				if pf := cachedPath(ftxt); pf != nil {
 					of := h.Call("exists", pf, h.Decode(docText, c15UseNum), h.Opts{})
@@ -601,9 +617,15 @@ func checkAnyChain(c *h.Ctx, docText string, s1, s2 string, lax bool) {
 	}
 	if h.CanonBag(of.Items) != h.CanonBag(want) {
 		c.Violate("anylevel.chain", h.F("mode", modeName(lax)), fmt.Sprintf("Query(%s) on %s = %s (%d items) but %s applied to each of the %d nodes of %s gives %d items %s", cs.Path, docText, h.CanonBag(of.Items), len(of.Items), s2, len(o1.Items), s1, len(want), h.CanonBag(want)), cs)
-	} else {
-		c.Held("anylevel.chain")
+		return
 	}
+	// where no object has several members every execution walks in the same
+	// order: then the sequence itself is that of the step-by-step evaluation
+	if !hasMultiMemberObject(doc) && h.CanonListTyped(of.Items) != h.CanonListTyped(want) {
+		c.Violate("anylevel.chain", h.F("mode", modeName(lax), "kind", "order"), fmt.Sprintf("Query(%s) on %s = %s but %s applied, in order, to each node of %s gives %s", cs.Path, docText, h.CanonListTyped(of.Items), s2, s1, h.CanonListTyped(want)), cs)
+		return
+	}
+	c.Held("anylevel.chain")
 }
 
 // checkAliased: a document in which the same Go value occurs at several
